@@ -1,4 +1,4 @@
-from contracts import fold, reach
+from contracts import fold, reach, arity
 
 def build(tier):
-    return dict(targets=fold.targets(tier) + reach.targets(tier), assumptions=[], trusted_base=[])
+    return dict(targets=fold.targets(tier) + reach.targets(tier) + arity.targets(tier), assumptions=[], trusted_base=[])
